@@ -143,7 +143,7 @@ def _run_index(cfg, rec, dp):
         if m is not None:
             env = model_env(m, vars_)
             rec.validate("path", env, {"r": core.evalf(zreal(r), env)})
-        rec.sample({"path_condition": [str(c) for c in ctx.pc][:6], "result": str(zreal(r))})
+        rec.want_sample() and rec.sample({"path_condition": [str(c) for c in ctx.pc][:6], "result": str(zreal(r))})
 
 
 def _cases(sizes):
@@ -266,7 +266,7 @@ def _run_axis(cfg, rec, dp):
         rec.check_all(ctx, items, wit)
         if m is not None:
             rec.validate("path", model_env(m, allvars), expected)
-        rec.sample({"path_condition": [str(c) for c in ctx.pc][:8],
+        rec.want_sample() and rec.sample({"path_condition": [str(c) for c in ctx.pc][:8],
                     "outcome": "AlignDatasetError" if kind == "exc" else {k: [str(zreal(x)) for x in v] for k, v in out.items()}})
 
 
